@@ -1,0 +1,43 @@
+//go:build verif
+
+// Contracts checked by /verif/gowp. This file contains comments only and is compiled only
+// with -tags verif.
+
+package usage
+
+// C19 (admission webhook): a delete is allowed only if the Usages indexed under the deleted
+// object's (group, kind, name) were listed successfully and there are none; every other
+// operation and every error is refused. The handler and the field index compute their keys
+// through the same function from the same three coordinates, ignoring the API version.
+
+//@ func (*usage.Handler).Handle
+//@ props C19
+//@ ensures [C19:only-deletes-are-ever-allowed] result.Allowed ==> request.Operation == "DELETE"
+
+//@ func (*usage.Handler).validateNoUsages
+//@ props C19
+//@ ghost listedNone bool = false
+//@ site usage.IndexValueForObject($o)
+//@   assert [C19:index-key-of-the-deleted-object] $o == u
+//@ site (client.Reader).List(_, _, $l, $opts...)
+//@   update listedNone = err == nil && len(as($l, *v1beta1.UsageList).Items) == 0
+//@ optional site (client.Writer).Patch(_, _, $o, _)
+//@   assert [C19:only-annotates-the-object-in-use] $o == u && !listedNone
+//@ ensures [C19:allowed-only-without-usages] result.Allowed ==> listedNone
+
+//@ func usage.IndexValueForObject
+//@ frame fresh-only
+//@ props C19
+//@ site usage.indexValue($av, $k, $n)
+//@   assert [C19:webhook-key-coordinates] $av == u.GetAPIVersion() && $k == u.GetKind() && $n == u.GetName()
+
+//@ func usage.SetupWebhookWithManager$1
+//@ props C19
+//@ optional site usage.indexValue($av, $k, $n)
+//@   assert [C19:index-key-coordinates] $av == u.Spec.Of.APIVersion && $k == u.Spec.Of.Kind && $n == u.Spec.Of.ResourceRef.Name
+
+//@ func usage.indexValue
+//@ props C19
+//@ frame fresh-only
+//@ site schema.ParseGroupVersion($s)
+//@   assert [C19:group-parsed-from-the-api-version] $s == apiVersion
